@@ -68,7 +68,7 @@ type dayAcc struct {
 	nPesum, nNfixsum, nAufna1                           float64
 	nAkf                                                int
 	nUnstable, nUnstableEarly                           bool
-	nDsumm                                              float64
+	nDsumm, nDungbed                                    float64
 }
 
 var prevDayEndC1 = math.NaN()
@@ -229,7 +229,7 @@ func traceLine(work, line string, lineNo int, r *rng, waterEvery int) {
 			}
 			gwfcPrevZeit, gwfcPrevGRW = zeit, g.GRW
 			c1, minp, minC1 := nsum(g)
-			nday = dayAcc{nDsumm: g.DSUMM, nC1: c1, nAufna: g.AUFNASUM, nMin: minp, nUms: g.UMS, nN2o: g.N2onitsum, nOut: g.OUTSUM, nDrain: g.DRAINLOSS, nDenit: g.CUMDENIT, nMinC1: minC1, nPesum: g.PESUM, nNfixsum: g.NFIXSUM, nAkf: g.AKF.Index}
+			nday = dayAcc{nDungbed: g.DUNGBED, nDsumm: g.DSUMM, nC1: c1, nAufna: g.AUFNASUM, nMin: minp, nUms: g.UMS, nN2o: g.N2onitsum, nOut: g.OUTSUM, nDrain: g.DRAINLOSS, nDenit: g.CUMDENIT, nMinC1: minC1, nPesum: g.PESUM, nNfixsum: g.NFIXSUM, nAkf: g.AKF.Index}
 			// deposition / irrigation N since yesterday's end of day (C02)
 			meas := false
 			for _, m := range g.MESS {
@@ -389,12 +389,12 @@ func traceLine(work, line string, lineNo int, r *rng, waterEvery int) {
 				c1, minp, minC1 := nsum(g)
 				dC1 := c1 - nday.nC1
 				rhs := -(g.AUFNASUM - nday.nAufna) + (minp - nday.nMin) + (g.UMS - nday.nUms) - (g.N2onitsum - nday.nN2o) -
-					(g.OUTSUM - nday.nOut) - (g.DRAINLOSS - nday.nDrain) - (g.CUMDENIT - nday.nDenit)
+					(g.OUTSUM - nday.nOut) - (g.DRAINLOSS - nday.nDrain) - (g.CUMDENIT - nday.nDenit) + (g.DUNGBED - nday.nDungbed)
 				res := dC1 - rhs
 				scale := math.Abs(c1) + math.Abs(g.AUFNASUM-nday.nAufna) + math.Abs(g.OUTSUM-nday.nOut) + math.Abs(minp-nday.nMin)
 				clean := minC1 >= 1 && nday.nMinC1 >= 1 && !nday.nUnstable
 				emit(jobj{"k": "nday", "line": lineNo, "zeit": zeit, "res": res, "clean": clean, "outn_bottom": g.OUTN == g.N, "unstable": nday.nUnstable, "steps": day.steps, "ums": g.UMS, "dsumm": g.DSUMM, "mz": g.MZ, "meas": day.excluded})
-				if g.OUTN == g.N && g.N >= 2 && !g.AUTOFERT {
+				if g.OUTN == g.N && g.N >= 2 {
 					if !(res >= -1e-8*(1+scale)) {
 						oracleFail("n-balance-loss line=%d zeit=%d steps=%d residual=%g", lineNo, zeit, day.steps, res)
 					} else if clean && !(res <= 1e-8*(1+scale)) {
